@@ -411,6 +411,23 @@ def rsu_arm(F, rep):
     dfl = [u["callee"] for j, u in b.calls() if parse_callee(u["callee"])[2] in DEFAULTING and any((op_place(a) or {}).get("l") == res for a in u["args"])]
     rep.ob("R3", "rsu:lookup-error-propagates", not dfl, "a failed lookup is propagated, not defaulted" if not dfl else
            f"lookup result is defaulted via {dfl}", b.loc(t["sp"]), key="R3:rsu:lookup-default")
+    # the row's purchase is priced by THIS row's lookup on every path: the construction of the purchase that is reachable from the
+    # lookup is also dominated by it. A second way to it — a previous row's result kept in a variable and reused when the next
+    # deposit is "close enough" (seeded change C19-s7) — prices a deposit from another deposit's vest entry.
+    inner = [(h, bl) for h, bl in b.loops() if i in bl]
+    hdr = (min(inner, key=lambda x: len(x[1]))[0],) if inner else ()
+    after = b.reach_from(t["target"], removed_blocks=hdr) if t.get("target") is not None else set()      # the rest of THIS row's iteration
+    buys = [(k, s_) for k, si, s_ in b.assigns() if s_["rv"]["k"] == "agg" and s_["rv"]["adt"].endswith("CgtTransaction") and s_["rv"].get("variant") == "Buy" and k in after]
+    if not buys:
+        buys = [(k, s_) for k, si, s_ in b.assigns() if s_["rv"]["k"] == "agg" and ("CgtTrade" in s_["rv"]["adt"] or s_["rv"]["adt"].endswith("CgtTransaction")) and k in after
+                and s_["rv"].get("variant") not in ("Sell", "Dividend", "Comment")]
+    for k, s_ in buys[:1]:
+        okd = b.dominates(i, k)
+        rep.ob("R3", "rsu:priced-by-own-lookup", okd, "the RSU purchase is built only on paths through this row's lookup" if okd else
+               "the RSU purchase can be built without passing this row's award lookup (a value kept from another row is used instead): the vest entry then depends "
+               "on the rows converted before", b.loc(s_["sp"]), key="R3:rsu:lookup-bypassed")
+    if not buys:
+        rep.note("R3: the purchase row is not built in the function that makes the lookup (domination not judged)")
     # the None-awards edge returns MissingFairMarketValue
     found = False
     for k, si, s in b.assigns():
